@@ -78,6 +78,24 @@ def keyword_line_brace(rng, n_random):
     return out
 
 
+def string_boundary_texts():
+    """Source texts around string literals whose values sit on the boundaries of the escape / closing-quote
+    logic (trailing backslashes, escaped quote at the end, quote-backslash mixes, escapes, braces,
+    non-ASCII), closed and unclosed, alone and inside calls, lists, dicts, struct literals and blocks."""
+    from . import tree_gen as G
+
+    def esc(v):
+        return '"' + v.replace("\\", "\\\\").replace('"', '\\"').replace("\n", "\\n").replace("\t", "\\t") + '"'
+    out = []
+    for v in G.STRINGS:
+        lit = esc(v)
+        out += [lit, lit + " ", "x = " + lit, "f(" + lit + ", " + lit + ")", "[" + lit + "]", "Dict[" + lit + " => 1]",
+                "Foo{ a: " + lit + " }", "{\n  " + lit + "\n  \"b\"\n}", lit + " " + lit, lit + lit,
+                lit[:-1], lit[:-1] + "\n\"b\"", "let s = " + lit + "\nprintln(s)\nlet t = \"b\"",
+                "import " + lit, lit + ".len()", "// " + lit + "\n" + lit]
+    return out
+
+
 def _is_float_chars(cs):
     """Parse.isFloatChars (FLOAT_RE.is_match as a prefix test)."""
     if cs[:1] == "-":
@@ -151,7 +169,10 @@ def run(ctx):
              "}}}}", "))))", ",,,,", "=> =>", "let = =", "for in in", "return return", "x.0", "1.2.3", "a--1"]
     streams["fixed"] = fixed
     streams["keyword_line_brace"] = keyword_line_brace(rng, ctx.scale(1500, 60000))
-    ctx.rule = ("texts from 11 streams (corpus/C01 crash inputs first; keywords and names at the start of a line glued "
+    streams["string_boundaries"] = string_boundary_texts()
+    ctx.rule = ("texts from 12 streams (corpus/C01 crash inputs first; string literals over a boundary alphabet of "
+                "values (trailing backslashes, escaped quotes at the end, quote/backslash mixes, escapes, braces, "
+                "non-ASCII; closed and unclosed, in 16 contexts); keywords and names at the start of a line glued "
                 "to `{` in 9 contexts x 7 bodies + random token sequences with '', ' ' and newline separators; "
                 "raw weighted characters incl. 2/3/4-byte and non-ASCII whitespace; whole-token "
                 "sequences; string/comment-dense; perturbed seed files; all %d seed files; every token-boundary prefix "
@@ -242,6 +263,7 @@ def run(ctx):
     # ---------------- correspondence: lexer model, parser model on the real tokens
     sub = [t for t in all_texts if len(t) < 400]
     sub = rng.sample(sub, min(len(sub), ctx.scale(3000, 80000))) + fixed + streams["corpus"] + \
+        streams["string_boundaries"] + \
         streams["keyword_line_brace"][:ctx.scale(1200, 20000)]
     li = ctx.garden_batch(["lex " + hexs(t) for t in sub])
     lm = ctx.model_batch(["lex " + hexs(t) for t in sub])
@@ -251,7 +273,7 @@ def run(ctx):
     ctx.cov["lex_compared"] = len(sub)
     ctx.log("lex correspondence done")
     psub = [t for t in sub if len(t) < 200]
-    psub = psub[:ctx.scale(2000, 50000)] + [t for t in psub[ctx.scale(2000, 50000):] if t in set(streams["corpus"])
+    psub = psub[:ctx.scale(2000, 50000)] + [t for t in psub[ctx.scale(2000, 50000):] if t in set(streams["corpus"]) or t in set(streams["string_boundaries"])
                                             or t in set(streams["keyword_line_brace"][:ctx.scale(1200, 20000)])]
     both = AD.parse_both(ctx, psub)
     ndis = 0
